@@ -16,18 +16,24 @@ theorem nEvents : Gen.sgNumEvents = 16 := by decide
 theorem frameOffset_eq : frameOffset = 1 := by decide
 theorem eBusy_eq : eBusy = -16 := by decide
 
-theorem aheadOf_eq (fn : Nat) : aheadOf fn = (fn + 2) % 4294967296 := by
-  simp only [aheadOf, u32i, Gen.sgScheduleAhead]
+theorem maxFn_eq : Gen.sgGsmMaxFn = 2715648 := by decide
+
+/-- the frame number `sched_gsmtime_execute(fn)` compares the events with: `fn_sched`, the 32-bit sum
+`fn + SCHEDULE_AHEAD` reduced modulo `GSM_MAX_FN` -/
+def target (fn : Nat) : Nat := (fn % 4294967296 + 2) % 4294967296 % 2715648
+
+theorem aheadOf_u32 (fn : Nat) : aheadOf (u32 fn) = .ok (target fn) := by
+  simp only [aheadOf, maxFn_eq, u32i, u32, Gen.sgScheduleAhead, target]
+  have h : ¬ (2715648 = 0) := by decide
+  simp only [h, if_false, Except.ok.injEq]
   omega
 
-/-- the frame number `sched_gsmtime_execute(fn)` compares the events with -/
-def target (fn : Nat) : Nat := (fn % 4294967296 + 2) % 4294967296
-
-theorem target_small (fn : Nat) (h : fn + 2 < 4294967296) : target fn = fn + 2 := by
+/-- inside the hyperframe the target is `fn + 2` reduced modulo `GSM_MAX_FN` -/
+theorem target_mod (fn : Nat) (h : fn < 2715648) : target fn = (fn + 2) % 2715648 := by
   simp only [target]; omega
 
-theorem aheadOf_u32 (fn : Nat) : aheadOf (u32 fn) = target fn := by
-  rw [aheadOf_eq]; rfl
+theorem target_lt (fn : Nat) : target fn < 2715648 := by
+  simp only [target]; omega
 
 /-! ### the pool / list invariant -/
 
@@ -300,7 +306,7 @@ theorem keptOf_sorted (tgt : Nat) : ∀ l, Sorted l → keptOf tgt l = l.filter 
       rw [keptOf_sorted tgt rest h.2]
       split <;> simp_all
 
-/-- `sched_gsmtime_execute(fn)` on a sorted list: exactly the events with `evt->fn == fn + 2` (32-bit sum) are
+/-- `sched_gsmtime_execute(fn)` on a sorted list: exactly the events with `evt->fn == fn_sched` are
 handed to `tdma_schedule_set`, in list order, and moved to the head of the inactive list one by one; all
 other events stay, in order -/
 theorem execute_eq (g : GState) (s : Sched) (fn : Nat) (h : Sorted g.active) :
@@ -649,7 +655,7 @@ theorem gtraffic_keeps : ∀ (ops : List SOp) (g : GState) (ev : Event), (∀ op
     | greset => simp [NoGexec] at this
     | tdma top => exact h
 
-/-- an event whose frame is not `fn + 2` stays pending and no call is made for its slot -/
+/-- an event whose frame is not `target fn` stays pending and no call is made for its slot -/
 theorem gexecG_miss (g : GState) (fn : Nat) (ev : Event) (hinv : GInv g) (hev : ev ∈ g.active)
     (hne : target fn ≠ ev.fn) :
     ev ∈ (gexecG g fn).1.active ∧ (gexecG g fn).2.filter (fun e => e.slot = ev.slot) = [] := by
@@ -690,7 +696,7 @@ theorem filter_slot_of_mem : ∀ (l : List Event) (ev : Event) (p : Event → Bo
         exact ih
       · exact ih
 
-/-- an event whose frame is `fn + 2` is handed over, once, and its slot is free again -/
+/-- an event whose frame is `target fn` is handed over, once, and its slot is free again -/
 theorem gexecG_hit (g : GState) (fn : Nat) (ev : Event) (hinv : GInv g) (hev : ev ∈ g.active)
     (heq : target fn = ev.fn) :
     (gexecG g fn).2.filter (fun e => e.slot = ev.slot) = [ev] ∧ ev ∉ (gexecG g fn).1.active ∧
@@ -736,7 +742,7 @@ theorem runFrames_append (env : Env) : ∀ (a b : List Frame) (st st' : Sys) (ou
     refine ⟨st2, o :: o1, o2, ?_, h5, by rw [h3, h6]; rfl⟩
     simp only [runFrames, h1, h4, bind, Except.bind, pure, Except.pure]
 
-/-- frames in none of which `fn + 2` is the event's frame: the event stays pending, no call is made for its
+/-- frames in none of which `target fn` is the event's frame: the event stays pending, no call is made for its
 slot -/
 theorem frames_miss (env : Env) : ∀ (frs : List Frame) (st st' : Sys) (outs : List FrameOut) (ev : Event),
     GInv st.g → ev ∈ st.g.active → (∀ fr ∈ frs, FrameNoGexec fr ∧ target fr.fn ≠ ev.fn) →
@@ -763,7 +769,7 @@ theorem frames_miss (env : Env) : ∀ (frs : List Frame) (st st' : Sys) (outs : 
       exact this.nil_left
     · exact r3 o' ho'
 
-/-- the frame in which `fn + 2` is the event's frame: exactly one call is made for its slot, with its item
+/-- the frame in which `target fn` is the event's frame: exactly one call is made for its slot, with its item
 set and `p3`; afterwards the event is no longer pending and its slot is free -/
 theorem frame_hit (env : Env) (st st' : Sys) (fr : Frame) (o : FrameOut) (ev : Event) (hinv : GInv st.g)
     (hev : ev ∈ st.g.active) (hno : FrameNoGexec fr) (heq : target fr.fn = ev.fn)
